@@ -315,3 +315,61 @@ func ExtCompare(a, b []byte) int {
 	}
 	return 0
 }
+
+// ExtDecodeRune models utf8.DecodeRuneInString with byte comparisons only
+// (the library version indexes a table with the first byte); the executor
+// uses it for `range` over a string with symbolic bytes.
+func ExtDecodeRune(s string) (rune, int) {
+	n := len(s)
+	if n < 1 {
+		return 0xFFFD, 0
+	}
+	b0 := s[0]
+	if b0 < 0x80 {
+		return rune(b0), 1
+	}
+	if b0 < 0xC2 || b0 > 0xF4 {
+		return 0xFFFD, 1
+	}
+	if b0 < 0xE0 {
+		if n < 2 {
+			return 0xFFFD, 1
+		}
+		b1 := s[1]
+		if b1 < 0x80 || b1 > 0xBF {
+			return 0xFFFD, 1
+		}
+		return rune(b0&0x1F)<<6 | rune(b1&0x3F), 2
+	}
+	lo, hi := byte(0x80), byte(0xBF)
+	if b0 < 0xF0 {
+		if n < 3 {
+			return 0xFFFD, 1
+		}
+		b1, b2 := s[1], s[2]
+		if b0 == 0xE0 {
+			lo = 0xA0
+		}
+		if b0 == 0xED {
+			hi = 0x9F
+		}
+		if b1 < lo || b1 > hi || b2 < 0x80 || b2 > 0xBF {
+			return 0xFFFD, 1
+		}
+		return rune(b0&0x0F)<<12 | rune(b1&0x3F)<<6 | rune(b2&0x3F), 3
+	}
+	if n < 4 {
+		return 0xFFFD, 1
+	}
+	b1, b2, b3 := s[1], s[2], s[3]
+	if b0 == 0xF0 {
+		lo = 0x90
+	}
+	if b0 == 0xF4 {
+		hi = 0x8F
+	}
+	if b1 < lo || b1 > hi || b2 < 0x80 || b2 > 0xBF || b3 < 0x80 || b3 > 0xBF {
+		return 0xFFFD, 1
+	}
+	return rune(b0&0x07)<<18 | rune(b1&0x3F)<<12 | rune(b2&0x3F)<<6 | rune(b3&0x3F), 4
+}
